@@ -9,6 +9,7 @@ import (
 	"fmt"
 	"os"
 	"path/filepath"
+	"regexp"
 	"sort"
 	"strings"
 )
@@ -163,8 +164,20 @@ func readSpecLines(file string) ([]rawLine, error) {
 		}
 		out = append(out, rawLine{l, file, n})
 	}
+	for _, rl := range out {
+		for _, w := range specWordRe.FindAllString(rl.text, -1) {
+			specWords[w] = true
+		}
+	}
 	return out, sc.Err()
 }
+
+// specWords: every identifier that occurs anywhere in a contract or spec file. A struct field whose name is
+// not among them cannot be read by any clause, so a write to it cannot affect anything that is proved.
+var (
+	specWords  = map[string]bool{}
+	specWordRe = regexp.MustCompile(`[A-Za-z_][A-Za-z0-9_]*`)
+)
 
 func splitFirst(s string) (string, string) {
 	s = strings.TrimSpace(s)
